@@ -9,6 +9,8 @@ CONSTANTS
   MaxOps = 40
   HistViews = FALSE
   OrderedBegin = FALSE
+  MaxOpen = 9
+  NoClose = FALSE
 VIEW View0
 INVARIANTS TypeOK RingConsistent InOrder NoDirty PrefixRule CompleteKF AtomicKF CleanupSafe SeekConsistent SeekNoDirty EmitState
 PROPERTIES Stable
